@@ -344,6 +344,15 @@ def gen(rng: random.Random, tier: str) -> dict:
         for calls in threads:
             for call in calls:
                 _aged_fragments(rng, call)
+    if rng.random() < 0.1:
+        # the typographic core rules on (they are off in most generated configurations) and something for them to do
+        cfg = {"preset": "js-default", "options": {**cfg["options"], "typographer": True, "linkify": False},
+               "enable": sorted(set(cfg.get("enable", [])) | {"smartquotes", "replacements"}),
+               "disable": [x for x in cfg.get("disable", []) if x not in ("smartquotes", "replacements")]}
+        for calls in threads:
+            for call in calls:
+                call[1] += (" " if "Inline" in call[0] else "\n\n") + " ".join(rng.sample(docgen.TYPO, 2)) + \
+                           ("" if "Inline" in call[0] else "\n")
     hl = rng.random() < 0.12
     if hl:
         for calls in threads:
